@@ -105,7 +105,9 @@ def equal(a: Any, b: Any, approx: bool = False) -> bool:
     if isinstance(a, float) and isinstance(b, float):
         if a == b or (math.isnan(a) and math.isnan(b)):
             return True
-        return approx and math.isclose(a, b, rel_tol=1e-9, abs_tol=1e-12)
+        # approx = values derived from a range sweep (numpy's progression vs the reference's own): sums of such values can
+        # cancel to ~1e-12 instead of 0.0 and a square root lifts that to ~1e-6, hence the absolute term
+        return approx and math.isclose(a, b, rel_tol=1e-9, abs_tol=1e-5)
     if isinstance(a, (int, float)) and isinstance(b, (int, float)):
         return type(a) is type(b) and a == b
     if isinstance(a, str) and isinstance(b, str):
